@@ -902,12 +902,41 @@ func sizesFamily(budget time.Duration) mc.Family {
 		v := v
 		cases = append(cases, cse{fmt.Sprintf("ItalicAngle %v", v), func() *afm.Metrics { m := base(); m.ItalicAngle = v; return m }})
 	}
+	// encoding vectors with few, almost all and all 256 codes taken, with and
+	// without an explicit .notdef glyph (which has no code of its own when every
+	// slot names another glyph)
+	for _, n := range []int{1, 2, 128, 254, 255, 256} {
+		for _, withNotdef := range []bool{false, true} {
+			for _, fromTop := range []bool{false, true} {
+				n, withNotdef, fromTop := n, withNotdef, fromTop
+				cases = append(cases, cse{fmt.Sprintf("%d codes taken (from the top: %v), .notdef glyph present: %v", n, fromTop, withNotdef), func() *afm.Metrics {
+					m := base()
+					delete(m.Glyphs, "A")
+					m.Encoding[65] = ".notdef"
+					for i := 0; i < n; i++ {
+						code := i
+						if fromTop {
+							code = 255 - i
+						}
+						name := fmt.Sprintf("c%03d", (i*37)%256)
+						m.Glyphs[name] = &afm.GlyphInfo{WidthX: float64(300 + i)}
+						m.Encoding[code] = name
+					}
+					m.Glyphs["unencoded"] = &afm.GlyphInfo{WidthX: 77}
+					if withNotdef {
+						m.Glyphs[".notdef"] = &afm.GlyphInfo{WidthX: 250}
+					}
+					return m
+				}})
+			}
+		}
+	}
 	histCases := historyCases()
 	nSize := len(cases)
 	_ = nSize
 	return mc.Family{
 		Name: "sizes-and-precision", Items: len(cases) + len(histCases), Budget: budget,
-		Rule: fmt.Sprintf("%d metrics values written and re-read by the library: Notice of 255..200000 bytes (every length around 4096, 8192 and 65536), FullName / FontName / a glyph name of 4090, 4097, 30000, 70000 bytes, one glyph with 10..9000 ligatures (one line of up to 100 KiB each), 300 and 5000 glyphs with twice as many kerning pairs, files of about 5 MB (200,000 kerning pairs; a 5,000,000-byte Notice in front of the glyphs), ItalicAngle over 13 values that need up to 17 significant digits; oracle: deep-equal metrics after one cycle, byte-identical file after a second; plus %d history cases: a write that follows a write which failed after 0, 40, 200 or 1000 bytes gives the same bytes as without it, and a value returned by Read may be overwritten by the caller (encoding, glyph map, kerning list) without changing what later Read calls return (files with every glyph unencoded, none unencoded, no glyphs); non-trivial = all", len(cases), len(histCases)),
+		Rule: fmt.Sprintf("%d metrics values written and re-read by the library: Notice of 255..200000 bytes (every length around 4096, 8192 and 65536), FullName / FontName / a glyph name of 4090, 4097, 30000, 70000 bytes, one glyph with 10..9000 ligatures (one line of up to 100 KiB each), 300 and 5000 glyphs with twice as many kerning pairs, files of about 5 MB (200,000 kerning pairs; a 5,000,000-byte Notice in front of the glyphs), ItalicAngle over 13 values that need up to 17 significant digits, encoding vectors with 1, 2, 128, 254, 255 and all 256 codes taken (from either end) with and without an explicit .notdef glyph; oracle: deep-equal metrics after one cycle, byte-identical file after a second; plus %d history cases: a write that follows a write which failed after 0, 40, 200 or 1000 bytes gives the same bytes as without it, and a value returned by Read may be overwritten by the caller (encoding, glyph map, kerning list) without changing what later Read calls return (files with every glyph unencoded, none unencoded, no glyphs); non-trivial = all", len(cases), len(histCases)),
 		Body: func(c *mc.Ctx, item int) mc.Verdict {
 			if item >= len(cases) {
 				h := histCases[item-len(cases)]
